@@ -72,6 +72,8 @@ structure LogRec where
   hash : String
   size : Int
   time : Int
+  /-- ghost (not in the file): the predecessor the logged entry carried when it was finalized -/
+  prev : String := ""
 deriving DecidableEq, Repr, Inhabited
 
 structure Disk where
@@ -81,7 +83,6 @@ structure Disk where
   cmp : Name → Option Cmp := fun _ => none
   cmpTmp : Name → Option Cmp := fun _ => none      -- `<n>.cmp.lck` of fileutil.writeJSON
   final : String → Option Nat := fun _ => none     -- target path under the final root
-  finalLck : String → Option Nat := fun _ => none  -- `<target>.lck` of fileutil.Move
   body : Nat → Body := fun _ => []
   nextIno : Nat := 0
   log : List LogRec := []
@@ -125,8 +126,7 @@ inductive Prim
   | renPartFull (n : Name)
   | renFullWait (n : Name)
   | logAppend (r : LogRec)
-  | renWaitLck (n : Name) (t : String)
-  | renLckFinal (t : String)
+  | renWaitFinal (n : Name) (t : String)           -- fileutil.Move: os.Rename(<n>.wait, target)
   | rmFinal (t : String)                           -- environment: consumer takes the file
   | corrupt (ino : Nat) (pos : Nat) (v : Nat)      -- environment: staged byte overwritten
   | setMtime (ino : Nat) (t : Int)                 -- environment: os.Chtimes on a staged file
@@ -155,7 +155,7 @@ deriving Repr
 def Prim.durable : Prim → Bool
   | .rmCmp .. | .createPart .. | .truncPart .. | .writeIno .. | .cmpTmp .. | .cmpCommit ..
   | .rmPart .. | .rmFull .. | .renPartFull .. | .renFullWait .. | .logAppend ..
-  | .renWaitLck .. | .renLckFinal .. | .rmFinal .. | .corrupt .. | .setMtime .. | .setCmpMtime .. => true
+  | .renWaitFinal .. | .rmFinal .. | .corrupt .. | .setMtime .. | .setCmpMtime .. => true
   | _ => false
 
 def zeros (n : Nat) : Body := List.replicate n 0
@@ -205,13 +205,9 @@ def applyDisk (d : Disk) : Prim → Disk
     | some i => { d with wait := upd d.wait n (some i), full := upd d.full n none }
     | none => d
   | .logAppend r => { d with log := d.log ++ [r] }
-  | .renWaitLck n t =>
+  | .renWaitFinal n t =>
     match d.wait n with
-    | some i => { d with finalLck := upd d.finalLck t (some i), wait := upd d.wait n none }
-    | none => d
-  | .renLckFinal t =>
-    match d.finalLck t with
-    | some i => { d with final := upd d.final t (some i), finalLck := upd d.finalLck t none }
+    | some i => { d with final := upd d.final t (some i), wait := upd d.wait n none }
     | none => d
   | .rmFinal t => { d with final := upd d.final t none }
   | .corrupt i pos v => { d with body := upd d.body i (setAt (d.body i) pos v) }
